@@ -342,8 +342,37 @@ theorem path_selection (a : Args) (h : Path.templateCheck (templateUri a) = true
   simp only [h, Bool.not_true, Bool.false_eq_true, if_false]
   cases a.text <;> cases a.filename <;> cases a.moduleFilename <;> cases a.moduleDirectory <;> simp
 
-example : selectPath ⟨none, some "/d/t.html".toList, some "/t.html".toList, some "/m".toList, none, []⟩ =
-    .fileModule "/m/t.html.py".toList := by decide +kernel
+example : selectPath ⟨none, some "/d/t.html".toList, some "/t.html".toList, some "m".toList, none, [], "/srv".toList⟩ =
+    .fileModule "/srv/m/t.html.py".toList := by decide +kernel
+
+/-- **The module path does not depend on how it was spelled**: `Template.__init__` makes `module_filename` absolute
+just as it does the path derived from `module_directory`, so a relative `module_filename` (also from a
+`modulename_callable`) and its absolute spelling select the same path; the path handed to `_compile_from_file`, the
+`ModuleInfo` registry and the import system is absolute and normalised. -/
+theorem module_filename_spelling_irrelevant (a : Args) (p : Str) (hcwd : a.cwd.head? = some '/') :
+    selectPath { a with moduleFilename := some p } = selectPath { a with moduleFilename := some (absPath a.cwd p) } ∧
+    (∀ q, selectPath a = .fileModule q → q.head? = some '/' ∧ Path.normpath q = q) := by
+  constructor
+  · simp only [selectPath, templateUri, absPath_idem a.cwd p hcwd]
+  · intro q hq
+    unfold selectPath at hq
+    split at hq
+    · cases hq
+    · split at hq
+      · cases hq
+      · split at hq
+        · cases hq
+        · split at hq
+          · injection hq with hq; subst hq
+            exact ⟨absPath_head _ _ hcwd, Path.normpath_idem _⟩
+          · split at hq
+            · injection hq with hq; subst hq
+              exact ⟨absPath_head _ _ hcwd, Path.normpath_idem _⟩
+            · cases hq
+
+example : selectPath ⟨none, some "/d/t.html".toList, none, none, some "mods/./t.py".toList, [], "/srv".toList⟩ =
+    selectPath ⟨none, some "/d/t.html".toList, none, none, some "/srv/mods/t.py".toList, [], "/srv".toList⟩ := by
+  decide +kernel
 
 /-- **The directories of a lookup are searched in configuration order**: whatever the iteration order of sets
 (`iter`), `get_template(uri)` serves the file under the first *configured* directory that contains it – every
